@@ -74,6 +74,7 @@ pub const TEMPLATES: &[&str] = &[
     "clean-unless-defined",
     "clean-inheritance-cross-file",
     "clean-alias-chain",
+    "clean-alias-attributes",
     "clean-forward-refs",
     "warn-deprecated",
     "warn-doc",
@@ -206,6 +207,13 @@ pub fn instantiate(template: &'static str, rng: &mut Rng) -> Program {
             p.files.push(f("t1.slice", format!("module Al{u}\n\ntypealias A1 = A2\nstruct Uses {{ a: A1, b: Sequence<A3> }}\n")));
             p.files.push(f("t2.slice", format!("module Al{u}\n\ntypealias A2 = A3\ntypealias A3 = Dictionary<string, Target>\n")));
             p.files.push(f("t3.slice", format!("module Al{u}\n\nstruct Target {{ v: varuint62 }}\n[cs::type(\"X\")] typealias A4 = A1\n\n{}", filler(rng, "Al", fill))));
+        }
+        "clean-alias-attributes" => {
+            // type attributes written on the underlying type of an alias travel with the alias, whoever resolves
+            // it first: uses of the outer and of the inner alias sit in files on both sides of the definitions
+            p.files.push(f("early.slice", format!("module At{u}::Early\n\nstruct E {{ o: At{u}::Outer, i: At{u}::Inner, m: At{u}::Mid }}\n")));
+            p.files.push(f("defs.slice", format!("module At{u}\n\ntypealias Inner = Sequence<int32>\ntypealias Mid = [cs::type(\"Mid\")] Inner\ntypealias Outer = [cs::type(\"Outer\")] Mid\nstruct D {{ i: Inner, o: Outer, m: Mid }}\n")));
+            p.files.push(f("late.slice", format!("module At{u}::Late\n\nstruct L {{ i: At{u}::Inner, o: Sequence<At{u}::Outer>, m: [cs::type(\"Own\")] At{u}::Mid }}\n\n{}", filler(rng, "Late", fill))));
         }
         "clean-forward-refs" => {
             // six files, each referring to the next: whichever order they come in, everything resolves
